@@ -823,11 +823,16 @@ union Thing = Book | User
 extend union Thing = Book | Admin
 enum Shade { DARK LIGHT }
 extend enum Shade { MID }
-type Query { book: Book node: Node thing: Thing shade(s: Shade = MID): Shade }
+interface Orphan { id: ID }
+interface Lonely implements Orphan { id: ID }
+type Query { book: Book node: Node thing: Thing shade(s: Shade = MID): Shade orphan: Orphan }
 `
 
 var sharedDupDocs = []string{
 	`{ book { name title nam } }`, `{ node { idd } }`, `{ node { ... on Entity { id } ... on Book { name } } }`, `{ thing { ... on Book { name } ... on Admin { id } nope } }`,
 	`{ book { ... on Named { name } ... on Titled { title } } }`, `{ shade(s: MIDD) }`, `{ node { ... on Draft { id } ... on User { id } } thing { __typename } }`,
 	`{ node { name } }`, `{ thing { name } }`, `{ book { ... on Node { id } } }`,
+	// interfaces nothing implements (no possible type at all): as type condition, as parent of a spread, as parent
+	// of an unknown field
+	`{ node { ... on Orphan { id } } }`, `{ orphan { idd ... on Lonely { id } ...F } } fragment F on Node { id }`, `{ orphan { ... on Book { name } } thing { ... on Lonely { id } } }`,
 }
